@@ -812,6 +812,25 @@ example : toOpt (interpValueEqual GridMethods.gridValueEqual (.nan 0) (.nan 1)) 
     toOpt (interpValueEqual GridMethods.gridValueEqual (.int 1) (.float 1)) = some true ∧
     toOpt (interpValueEqual GridMethods.gridValueEqual (.int 1) (.str "1")) = some false := by decide
 
+/-- `_param_value_equal` (the comparison of `_populate_tree`'s prefix filter since the repair of finding F38) as generated: the
+same NaN-aware equality - `==`, or both NaN whatever objects they are.  This is what makes the `paramsMatch` primitive (whose
+interpreter compares the model's values with a reflexive `==`) a faithful reading of the source also for a NaN categorical
+choice; with the plain `trial.params[p] == v` of before, a NaN choice never matched itself and the combinations below it were
+evaluated more than once. -/
+theorem interp_paramValueEqual (a b : GVal) :
+    interpValueEqual BruteForceMethods.paramValueEqual a b = .ok (Grid.gridValueEqual a b) := by
+  simp only [interpValueEqual, BruteForceMethods.paramValueEqual, evalLets, evalVExpr, VArg.get, List.find?, Grid.gridValueEqual]
+  cases h1 : a.isNaN <;> cases h2 : b.isNaN <;> cases h3 : a.pyEq b <;> simp [evalVExpr, List.find?]
+/-- a NaN choice read back from a serialising storage (another object) matches the NaN choice of the current prefix -/
+example : toOpt (interpValueEqual BruteForceMethods.paramValueEqual (.nan 0) (.nan 1)) = some true ∧
+    toOpt (interpValueEqual BruteForceMethods.paramValueEqual (.nan 0) (.float 1)) = some false ∧
+    toOpt (interpValueEqual BruteForceMethods.paramValueEqual (.str "a") (.str "a")) = some true := by decide
+/-- the NaN-aware equality is reflexive on every value, NaN included (plain `==` is not: `pyEq` of a NaN with itself is false) -/
+theorem param_value_equal_refl (a : GVal) : interpValueEqual BruteForceMethods.paramValueEqual a a = .ok true := by
+  rw [interp_paramValueEqual]
+  cases a <;> simp [Grid.gridValueEqual, GVal.isNaN, GVal.pyEq, GVal.num?]
+example : GVal.pyEq (.nan 0) (.nan 0) = false := by decide
+
 /-- the body of the inner loop of `_same_search_space`, as generated -/
 def valBody : GStmt := .ite (.not .valueEqualCall) (.ret (.bool false)) .skip
 /-- the body of the outer loop -/
